@@ -468,7 +468,7 @@ func TestC40Monitor(t *testing.T) {
 		t.Skip()
 	}
 
-	kit.SetChecks(20, 120)
+	kit.SetChecks(14, 100)
 	rapid.Check(t, func(rt *rapid.T) {
 		c, steered := genC40(rt, c40Menu, excluded)
 		if steered {
@@ -664,7 +664,7 @@ type c40Profile struct {
 var c40Profiles = []c40Profile{
 	{ // mixed
 		menu: []string{"pause", "pause", "pause", "continue", "continue", "continue", "continue", "tick", "tick", "tick", "tick", "now", "now",
-			"component", "component", "field", "field", "field", "field", "state", "buffers", "progress"},
+			"component", "component", "field", "field", "field", "field", "state", "buffers", "progress", "list", "mode", "is_tracing"},
 		gaps: []int{0, 0, 0, 100, 300, 1000, 2500},
 		spin: []int{0, 0, 20, 50, 150, 400},
 	},
@@ -736,8 +736,8 @@ func genC40Conc(rt *rapid.T, excluded map[string]bool) (c40Case, bool) {
 	}
 	c.Probe = rapid.IntRange(0, 2).Draw(rt, "probe") == 0
 	// a tick of a library component may legitimately shift the access stream
-	// (relaxed compare): only one case in three has them
-	tickLib := rapid.IntRange(0, 2).Draw(rt, "tickLib") == 0
+	// (relaxed compare): only one case in four has them
+	tickLib := rapid.IntRange(0, 3).Draw(rt, "tickLib") == 0
 	steered := false
 	ncl := rapid.IntRange(2, 4).Draw(rt, "clients")
 	for i := 0; i < ncl; i++ {
@@ -850,7 +850,7 @@ func c40ConcJudge(res c40Result) c40ConcStats {
 }
 
 const c40ORule = "as sub-check monitor (child process of the -race binary, client in the parent), but (a) 2–4 concurrent clients, each with a connection of its own and a drawn plan of 20–45 requests " +
-	"(pause, continue, tick, now, component, field, state, buffers, progress, from a drawn profile per client: mixed / mostly pause and continue / inspections back to back; drawn sleep 0–2.5 ms, busy-wait 0–400 us and Gosched before each), after all clients have finished the harness issues one " +
+	"(pause, continue, tick, now, component, field, state, buffers, progress, list, mode, is_tracing, from a drawn profile per client: mixed / mostly pause and continue / inspections back to back; drawn sleep 0–2.5 ms, busy-wait 0–400 us and Gosched before each), after all clients have finished the harness issues one " +
 	"unconditional continue (no request of the API waits for another request, so every plan terminates under every interleaving); (b) short workloads (40–70 reads and writes) plus a harness component " +
 	"Slow registered like any component: the engine hook injects an event for it at every 8th–32nd dispatched event (fixed per workload), whose handler busy-works for a drawn 0–5 ms (cycled list of 5–12 durations), " +
 	"bumping its own state all the time and keeping a Busy marker set meanwhile, so that pauses regularly arrive mid-handler and wait, and other clients' requests arrive while they wait; half of the " +
@@ -858,7 +858,7 @@ const c40ORule = "as sub-check monitor (child process of the -race binary, clien
 	"Oracle: (1) no race report, no handler panic (as sub-check monitor); (2) explicit witnesses of an inspection overlapping event handling, independent of the race detector: " +
 	"Slow.TickLater() called by /api/tick/Slow finds Slow's Busy marker set; the answer to /api/component/Slow or /api/field/Slow… shows Busy=1; probe: Monitor.now read the clock while an event was " +
 	"in progress, an event was in progress when Pause() returned to an inspection handler or to pauseEngine, or the engine moved between that and the matching Continue(); (3) completion and fingerprint " +
-	"against the unmonitored run with the same injected events (the monitor's pokes of Slow excluded; one case in three also ticks library components and is compared on completion only). " +
+	"against the unmonitored run with the same injected events (the monitor's pokes of Slow excluded; one case in four also ticks library components and is compared on completion only). " +
 	"Non-trivial (from the stamps: request send/receive times in the parent against the wall-clock spans of Slow's handler executions in the child): >= 2 clients were answered mid-run and a " +
 	"pause was sent while Slow's handler still had >= 200 us to run and was answered only after it ended."
 
@@ -1028,7 +1028,7 @@ func TestC40Overlap(t *testing.T) {
 		t.Skip()
 	}
 
-	kit.SetChecks(12, 80)
+	kit.SetChecks(10, 80)
 	rapid.Check(t, func(rt *rapid.T) {
 		c, steered := genC40Conc(rt, excluded)
 		if steered {
